@@ -51,6 +51,7 @@ type PCall struct {
 // Provider is a recording cloud provider with fault injection (request number Fault of the current op fails).
 type Provider struct {
 	G        *Gate
+	B        *Bomb
 	mu       sync.Mutex
 	N, Fault int
 	Log      []PCall
@@ -60,6 +61,7 @@ type Provider struct {
 func (p *Provider) Reset(fault int) { p.mu.Lock(); p.N, p.Fault = 0, fault; p.mu.Unlock() }
 
 func (p *Provider) AssignIP(in *rpc.AssignIPRequest) (*rpc.AssignIPReply, error) {
+	p.B.Check()
 	p.G.Hit("provider", "AssignIP "+in.IPAddress)
 	p.mu.Lock()
 	defer p.mu.Unlock()
@@ -74,6 +76,7 @@ func (p *Provider) AssignIP(in *rpc.AssignIPRequest) (*rpc.AssignIPReply, error)
 }
 
 func (p *Provider) UnAssignIP(in *rpc.UnAssignIPRequest) (*rpc.UnAssignIPReply, error) {
+	p.B.Check()
 	p.G.Hit("provider", "UnAssignIP "+in.IPAddress)
 	p.mu.Lock()
 	defer p.mu.Unlock()
@@ -113,6 +116,8 @@ type World struct {
 	LastOp OpInfo
 	// Gate parks / records accesses (lock-exclusion probe, schedules); idle otherwise
 	Gate *Gate
+	// Bomb kills the process between two external calls (crash sweep); disarmed otherwise
+	Bomb *Bomb
 	// Snap is the checklist of a resync pass in progress (first phase done, iterations pending), by address
 	Snap map[uint32]schedulerplugin.VerifResyncEntry
 	// Mon is scratch space of the monitors (state they carry from step to step)
@@ -137,8 +142,9 @@ func NewWorld(conf Conf, rng *rand.Rand) (*World, error) {
 	w := &World{Conf: conf, Pools: conf.Pools, Rng: rng, Cnt: &Counter{}, nextUID: 1, Voided: map[string]bool{}, Mon: map[string]interface{}{}, Snap: map[uint32]schedulerplugin.VerifResyncEntry{},
 		Prov:   &Provider{Assigned: map[uint32]string{}},
 		podIdx: nsIndexer(), stsIdx: nsIndexer(), dpIdx: nsIndexer(), poolIdx: nsIndexer()}
-	w.Gate = &Gate{}
+	w.Gate, w.Bomb = &Gate{}, &Bomb{}
 	w.Cnt.G, w.Prov.G = w.Gate, w.Gate
+	w.Cnt.B, w.Prov.B = w.Bomb, w.Bomb
 	var objs []runtime.Object
 	for _, n := range conf.Nodes {
 		objs = append(objs, &corev1.Node{ObjectMeta: metav1.ObjectMeta{Name: n.Name},
